@@ -45,14 +45,14 @@ TARGETS = {
             "family_step", "family_history_undo", "family_history_undo_run", "opHistory_undo", "structHistory_undo_bmp",
             "structHistory_undo_bmp'", "mixedHistory_undo_bmp",
             "delete_residual", "delete_residual_around", "insertInline_residual", "insertInline_residual_around",
-            "replace_residual_of_inv", "replace_residual"],
+            "replace_residual_of_inv", "replace_residual", "replace_residual_cut"],
     "C11": ["fitStep_decreases", "fitLoop_outOfFuel_exact", "fitLoop_terminates", "replaceStep_outOfFuel_cycle",
             "replaceStep_not_outOfFuel", "fit_no_internal_partial", "replaceStep_total_partial", "delete_total",
             "delete_total_respects", "deleteRange_total", "insertInline_total", "fit_emits_wf", "coherent_invariant",
             "inStep_invariant", "delete_emits_wf", "deleteRange_emits_wf", "insertInline_emits_wf",
             "delete_emits_valid_payload", "deleteRange_emits_valid_payload", "delete_emits_payloadValid",
             "deleteRange_emits_payloadValid", "insertInline_emits_valid_payload", "payloadInv_step",
-            "fit_emits_valid_payload_of_inv", "fit_emits_valid_payload", "payloadInv_step_gen"],
+            "fit_emits_valid_payload_of_inv", "fit_emits_valid_payload", "payloadInv_step_gen", "fit_emits_valid_payload_cut"],
     "C12": ["canJoin_join_applies", "liftTarget_lift_applies_flat", "liftTarget_lift_applies", "insertPoint_insert_applies",
             "dropPoint_drop_applies_closed", "joinPoint_join_applies", "insertPoint_insert_text_applies",
             "insertPoint_insert_marked_top"],
